@@ -244,7 +244,12 @@ impl Sub for Validators {
       if i == 1 && active.len() < vals.len() {
         for ((id, k, kind), spec) in vals.iter().zip(claim_specs.iter()) {
           if *id >= late_from {
-            let ok = if c.via_extend && c.layer == Layer::Generic { parser.check(spec).is_ok() && parser.extend_validators(&[(k.clone(), VALIDATORS[*id])]) } else { parser.validate(spec, VALIDATORS[*id]).is_ok() };
+            // the late registration goes through validate_claim, or - generic parser - only through the two extend_* entry points
+            let ok = if c.via_extend && c.layer == Layer::Generic {
+              parser.extend_checks(&[(k.clone(), Value::Null)]) && parser.extend_validators(&[(k.clone(), VALIDATORS[*id])])
+            } else {
+              parser.validate(spec, VALIDATORS[*id]).is_ok()
+            };
             if !ok {
               return Verdict::Discard;
             }
